@@ -356,7 +356,7 @@ def gen_inputs(tier, rng):
     # d1: k different functions through ONE OverSamplerIterate / ONE Grid2D(over_sampling=OverSamplingIterate): the threshold
     #     masks of a level depend on the function (compact dips at different / mirrored positions: same NUMBER of unresolved
     #     pixels at different positions), schedules of >= 2 sub-sizes
-    for k in range(700 if big else 70):
+    for k in range(500 if big else 70):
         m = sym_mask(rng) if rng.random() < 0.75 else rand_mask(rng, 4, 4, 10)
         ps, og = rand_geo(rng)
         if rng.random() < 0.5: og = ["0", "0"]
@@ -383,7 +383,7 @@ def gen_inputs(tier, rng):
                 if rng.random() < 0.3: st.append({"op": "iter", "m": m, "ps": ps, "og": og, "thr": thr, "rel": rel, "steps": steps, "f": f})
             yield {"op": "seq", "share": True, "steps": st}
     # d2: ONE OverSamplerUniform: cached reads, binning, functions; in-place edits of the map before the first cached read
-    for k in range(400 if big else 40):
+    for k in range(300 if big else 40):
         m = rand_mask(rng, 4, 4, 8); n = len(unmasked(m)); ps, og = rand_geo(rng)
         as_int = rng.random() < 0.25
         ss = [rng.choice([1, 2, 4])] * n if as_int else [rng.choice([1, 1, 2, 2, 4, 8]) for _ in range(n)]
@@ -411,7 +411,7 @@ def gen_inputs(tier, rng):
                "ssder": None if as_int else rng.choice([None, None, "native_in", "arith"]), "steps": st,
                "mder": rng.choice([None, None, "array", "grid"])}
     # d3: ONE Grid2D with OverSamplingUniform(int | map): k decorated calls
-    for k in range(400 if big else 40):
+    for k in range(300 if big else 40):
         m = rand_mask(rng, 4, 4, 8); n = len(unmasked(m)); ps, og = rand_geo(rng)
         r = rng.random()
         if r < 0.3: os = {"kind": "int", "s": rng.choice([1, 2, 4, 8])}
@@ -425,7 +425,7 @@ def gen_inputs(tier, rng):
                "mder": rng.choice([None, None, "array", "grid"])}
     # d4: sequences of single operations in ONE process on RELATED inputs (same shape and pixel count at other positions, other
     #     origin / scales), on fresh objects or on shared ones: a module-level or object-level memo keyed too coarsely
-    for k in range(400 if big else 44):
+    for k in range(300 if big else 44):
         m = rand_mask(rng, 4, 4, 8); n = len(unmasked(m)); ps, og = rand_geo(rng); ps2, og2 = rand_geo(rng)
         variants = [(m, ps, og), (permuted_mask(rng, m), ps, og), (m, ps, og2), (permuted_mask(rng, m), ps2, og), (m, ps, og)]
         rng.shuffle(variants); variants = variants[:rng.choice([3, 4])]
@@ -449,7 +449,7 @@ def gen_inputs(tier, rng):
             else: st.append({"op": "iter", "m": mm, "ps": pp, "og": oo, "thr": thr, "rel": rel, "steps": steps, "f": f})
         yield {"op": "seq", "share": rng.random() < 0.5, "steps": st}
     # d5: ONE OverSampling configuration object (int / iterate) used for several masks and functions
-    for k in range(240 if big else 24):
+    for k in range(160 if big else 24):
         ps, og = rand_geo(rng)
         if rng.random() < 0.5: os = {"kind": "int", "s": rng.choice([2, 4])}
         else:
